@@ -238,7 +238,7 @@ def split_shards(shards, max_lines=700, min_bytes=1500000):
     return out
 
 
-def validate_traces(module, shards, timeout=3000, cfg=None, extra_env=None):
+def validate_traces(module, shards, timeout=9000, cfg=None, extra_env=None):
     """Trace validation: one single-worker TLC process per (chunk of a) shard, NCPU at a time.
     Returns dict(mismatches=[(shard, dict)], states, lines, outputs)."""
     d = _specdir()
